@@ -114,6 +114,12 @@ overwritten, masked, clipped or selected after the exponential (so `asp_unit_mod
 array the code returns, including the part of the band beyond `1/λ` at sub-wavelength sampling) -/
 theorem gen_asp_every_sample : aspTfAppliedToEverySample = true := by decide
 
+/-- purity (structural): no entry point of the three routes / of free space writes to its array argument — no augmented
+assignment or subscript store on the parameter while it still names the caller's array, no `out=<param>`, no
+`overwrite_x=True` handed to the FFT library (the model routes are pure functions of their input) -/
+theorem gen_inputs_not_written :
+    fttoolsEntryPointsDoNotWriteInputs = true ∧ propagationEntryPointsDoNotWriteInputs = true := by decide
+
 /-! ## orthogonality -/
 
 /-- (re-export of `C01.IsChar.ortho`) root-of-unity orthogonality `Σ_{k<L} e(k·d/L) = L·[L ∣ d]`, derived from the character laws + faithfulness
